@@ -39,6 +39,10 @@ def failing_tests(wt):
 def main():
     pid, wt, idx = sys.argv[1], sys.argv[2], sys.argv[3]
     keep = "--keep" in sys.argv
+    tag = "m"
+    for a in sys.argv:
+        if a.startswith("--tag="):
+            tag = a.split("=", 1)[1]
     diff = os.path.join(wt, "MUT", "m%s.diff" % idx)
     demo = "sh MUT/m%s_demo/run.sh" % idx
     meta = {"property": pid, "source": "independent sub-agent given only the property text and a scratch worktree"}
@@ -87,7 +91,7 @@ def main():
     for l in lines:
         print("  " + l)
     if keep and confirmed:
-        d = os.path.join("/verif/seeded", "%s-m%s" % (pid, idx))
+        d = os.path.join("/verif/seeded", "%s-%s%s" % (pid, tag, idx))
         shutil.rmtree(d, ignore_errors=True)
         os.makedirs(d)
         shutil.copy(diff, os.path.join(d, "patch.diff"))
